@@ -388,8 +388,29 @@ fn detector(cfgv: &Value, wc: WorldCfg, out: &mut impl Write) {
         };
         while n_arr < arrivals {
             // one phase
-            let phase = rng.random_range(0..6);
+            // with a short dead-node grace period a seventh kind of phase lets the member die and be REMOVED,
+            // then replays stale heartbeats (lower / equal / slowly increasing but still old) at the observer
+            let small_grace = wc.fd.dead_grace < 10_000;
+            let phase = rng.random_range(0..if small_grace { 7 } else { 6 });
             let plen = rng.random_range(1..12usize);
+            if phase == 6 {
+                let bound = (wc.fd.phi * (wc.fd.max_interval.max(wc.fd.initial) as f64)).ceil() as u64 + 1;
+                emit(&mut run, &mut steps, json!({"a": "Advance", "d": bound}), out);
+                emit(&mut run, &mut steps, json!({"a": "Liveness", "n": "n1"}), out);
+                emit(&mut run, &mut steps, json!({"a": "Advance", "d": wc.fd.dead_grace + rng.random_range(0..3)}), out);
+                emit(&mut run, &mut steps, json!({"a": "Liveness", "n": "n1"}), out);
+                let mut stale = hb.saturating_sub(rng.random_range(0..6)).max(1);
+                for _ in 0..plen {
+                    if n_arr >= arrivals { break; }
+                    emit(&mut run, &mut steps, json!({"a": "Advance", "d": rng.random_range(0..=max_interval)}), out);
+                    let msg = json!({"t": "Syn", "src": "r", "dst": "n1", "cluster": "c", "digest": {"x": {"hb": stale, "gc": 0, "max": 0}}});
+                    emit(&mut run, &mut steps, json!({"a": "Inject", "n": "n1", "msg": msg}), out);
+                    n_arr += 1;
+                    if rng.random_range(0..2) == 0 { emit(&mut run, &mut steps, json!({"a": "Liveness", "n": "n1"}), out); }
+                    if stale < hb && rng.random_range(0..2) == 0 { stale += 1; }
+                }
+                continue;
+            }
             let lo = rng.random_range(0..=max_interval);
             let hi = rng.random_range(lo..=max_interval + 1);
             for _ in 0..plen {
